@@ -75,6 +75,7 @@ type gen struct {
 	root  *Pkg
 	opts  TypeOpts
 	names map[string]bool
+	idx   int
 
 	enums          []*Decl // root enums
 	keyables       []*Decl // named types usable as JSON map keys (ids, named strings/ints, int/string enums)
@@ -131,7 +132,7 @@ func NewTypeProg(seed int64, idx int, r *rand.Rand, opts TypeOpts) *Program {
 	pkgName := "pk" + id
 	root := &Pkg{Name: pkgName, Path: ModulePath + "/" + id, Dir: id}
 	p := &Program{ID: id, Family: "typeprog", Root: root, Meta: map[string]any{}}
-	g := &gen{r: r, p: p, root: root, opts: opts, names: map[string]bool{}}
+	g := &gen{r: r, p: p, root: root, opts: opts, names: map[string]bool{}, idx: idx}
 	p.Sources = []string{id + "/models.go"}
 
 	g.makeSubs()
@@ -547,6 +548,26 @@ func (g *gen) makeEnums() {
 		d.Tag("float-many-digits")
 		g.p.Feature("enum:float-values-with-many-digits")
 		g.enums = append(g.enums, d)
+	}
+	// enums whose values only differ beyond what a SHORTENED rendering of a constant shows
+	// (constant.Value.String() keeps 6 significant digits of a float and 72 characters of a string);
+	// chosen by the program number, not by the PRNG, so that the other shapes keep their streams
+	if g.idx%5 == 2 {
+		d := g.add(&Decl{Name: g.fresh("CloseRatio"), Kind: DEnum, Under: Basic("float64")})
+		d.Blocks = []*ConstBlock{{Grouped: true, Specs: []*Const{
+			{Names: []string{g.fresh(d.Name + "Low")}, Type: true, Value: "0.33333333"},
+			{Names: []string{g.fresh(d.Name + "High")}, Type: true, Value: "0.33333334"},
+		}}}
+		g.p.Feature("enum:float-values-equal-on-6-digits")
+		g.enums = append(g.enums, d)
+		long := strings.Repeat("long-shared-prefix-", 5) // 95 characters
+		d2 := g.add(&Decl{Name: g.fresh("LongMotto"), Kind: DEnum, Under: Basic("string")})
+		d2.Blocks = []*ConstBlock{{Grouped: true, Specs: []*Const{
+			{Names: []string{g.fresh(d2.Name + "One")}, Type: true, Value: fmt.Sprintf("%q", long+"one")},
+			{Names: []string{g.fresh(d2.Name + "Two")}, Type: true, Value: fmt.Sprintf("%q", long+"two")},
+		}}}
+		g.p.Feature("enum:string-values-equal-on-72-characters")
+		g.enums = append(g.enums, d2)
 	}
 	// a constant typed through an ALIAS of an enum is a member of the enum
 	if len(g.enums) > 0 && g.pr(0.15) {
